@@ -72,6 +72,9 @@ def _children(r) -> List[Dict[str, Any]]:
 def gen(r) -> Dict[str, Any]:
     n = r.choice([0, 1, 2, 3, 3, 4, 5, 8])
     times = [r.choice(SLOTS) for _ in range(n)]
+    if r.random() < 0.25:
+        # many distinct due times in a random insertion order (heap shapes beyond the small exhaustive sweep)
+        times = r.sample([-3.0] + [1.5 * i for i in range(1, 40)], r.randint(6, 16))
     mode = r.choice(["random", "ascending", "descending", "random"])
     if mode == "ascending":
         times.sort()
